@@ -133,6 +133,9 @@ func c04MulBeta(c *Ctx, prog *load.Program, beta *big.Int) {
 func c04MulGCallSites(c *Ctx, prog *load.Program) {
 	fn := absint.FindFunc(prog.SSA, Method(models.ScalarType, "mulGFlooredDiv"))
 	if fn == nil {
+		fn = absint.FindFunc(prog.SSA, models.Mod+".mulGFlooredDiv")
+	}
+	if fn == nil {
 		return
 	}
 	var limbParams []int
@@ -207,7 +210,15 @@ func c04Split(c *Ctx, prog *load.Program, k refmath.GLVConsts) {
 	g1, g2 := deref(r.Result(0)), deref(r.Result(1))
 	c.R.Decide(g1 != nil && sym.Equal(g1, k1), "C04-3", "splitGLV/k1", pos, "k1 = s + k2*(-lambda)", "k1 is "+absint.ValString(g1))
 	c.R.Decide(g2 != nil && sym.Equal(g2, k2), "C04-3", "splitGLV/k2", pos, "k2 = round(s*g1/2^384)*(-b1) + round(s*g2/2^384)*(-b2)", "k2 is "+absint.ValString(g2))
-	c.R.Floor("C04-3", 2)
+	// the split is total: a scalar for which it panics is a scalar the multiplications are not exact for (a range
+	// assertion on the halves cannot be decided here - whether its bound is right is a lattice argument - and is reported)
+	if len(r.Ex.Panics) > 0 {
+		pn := r.Ex.Panics[0]
+		c.R.Unknown("C04-3", "splitGLV/total", PosStr(prog, pn.Pos), fmt.Sprintf("a panic (%s) is reachable in the scalar split when {%s}: not proven unreachable", pn.Msg, GuardString(pn.Guard)))
+	} else {
+		c.R.OK("C04-3", "splitGLV/total", pos, "no panic is reachable in the scalar split")
+	}
+	c.R.Floor("C04-3", 3)
 }
 
 // c04Ladder analyses one of the two GLV multiplications; returns the number of trailing bytes consumed per half.
